@@ -41,6 +41,8 @@ Definition kcase (c : cfg) (name : Z) (a : list Z) : obs :=
     obs_res (Index_from_flattened i (ord_of o) (mkAxisShape mj mn)) (fun ix => OList [OZ (ix_row ix); OZ (ix_col ix)])
   | 9, [r; cl; o; mj; mn] =>                         (* Index::to_flattened *)
     obs_res (Index_to_flattened c (mkIndex r cl) (ord_of o) (mkAxisShape mj mn)) OZ
+  | 13, [esL; esU; n; m; o1; o2] =>                  (* multiply with operand and output element types of different sizes *)
+    obs_res (mul_decision c esU (empty_of (ord_of o1) n 0) (empty_of (ord_of o2) 0 m)) (obs_shape_size (ord_of o1))
   | 10, [] => OStr autotraits_text                   (* Send / Sync status of the mutable vector iterators *)
   | 11, [ty; opk] => OStr (scalar_forms_text opk)     (* the 18 scalar operator forms of one primitive type *)
   | 12, [ty] => OStr scalar_neg_text                 (* -matrix, -&matrix *)
